@@ -26,6 +26,24 @@ PROPS = {
             "node tags are not compared (no normative prose); `!`-modified WHITESPACE/COMMENT and user rules named like built-ins are left to C02",
         ],
     ),
+    "C05": dict(
+        runs=BOTH_CONFIGS("c05"),
+        rule=("random grammars (generator G, profile full, biased to the shapes each pass rewrites and to branching over stack-mutating "
+              "children) x every start rule x inputs (all strings over the grammar's alphabet up to a length bound + walks + mutants). "
+              "Per case: (a) for every pass that rewrote the grammar, REF(before) vs REF(after) incl. final stack; (b) pest_vm over the "
+              "whole pipeline vs REF(unoptimized) incl. the final stack (hook H1c); (c) on disagreement, re-run with single passes left out. "
+              "Non-trivial: some pass (or the restorer) rewrote the grammar, REF visited >= 3 operator kinds, input non-empty; "
+              "distinct = (grammar, rule, input) hashes (capped per shard: lower bound)."),
+        level_text=("Exploration: every optimizer pass is executed for real on generated grammars and judged by the reference interpreter at "
+                    "the semantics level, and the complete pipeline is judged on the real engine including the final stack, exhaustively over "
+                    "short inputs per grammar. Reach is the generator's grammar space, not all grammars."),
+        level_note="Trusted: the reference interpreter (incl. its definition of Expr::Skip) and hook H2 (pass functions re-exported unchanged).",
+        technique="runtime monitoring: per-pass and whole-pipeline differential oracle (reference interpreter) with pass attribution, both feature configurations",
+        assumptions=[
+            "the `unroll` pass cannot be left out in attribution (to_optimized requires it)",
+            "known findings are explained, not pattern-matched: lister only if the pass did exactly the documented rewrite and omitting it removes the disagreement; e+ only if reading e+ as e ~ e* removes it",
+        ],
+    ),
 }
 
 HOOK_COMMITS = [
@@ -36,3 +54,15 @@ HOOK_COMMITS = [
 ]
 
 NOT_YET = {}
+
+# monitors delivered as separate spec files
+import glob as _glob
+import importlib.util as _ilu
+import os as _os
+
+for _f in sorted(_glob.glob(_os.path.join(_os.path.dirname(_os.path.abspath(__file__)), "props_c*.py"))):
+    _id = _os.path.basename(_f)[len("props_"):-3].upper()
+    _spec = _ilu.spec_from_file_location("props_" + _id, _f)
+    _m = _ilu.module_from_spec(_spec)
+    _spec.loader.exec_module(_m)
+    PROPS[_id] = _m.SPEC
